@@ -25,10 +25,21 @@ def unmatchedParens (s : Bytes) : List Nat :=
     | _, _ => un ++ stack
   go 0 s m [] []
 
-/-- the brace-delimited text `t[start .. start+len)` without its braces -/
+/-- index, relative to `rest`, of the brace that closes a group opened just before `rest`: nested braces are counted,
+nothing is an escape inside braces -/
+def closeIdx : Bytes → Nat → Nat → Option Nat
+  | [], _, _ => none
+  | b :: rest, count, idx =>
+    if b = 123 then closeIdx rest (count + 1) (idx + 1)
+    else if b = 125 then (if count = 1 then some idx else closeIdx rest (count - 1) (idx + 1))
+    else closeIdx rest count (idx + 1)
+
+/-- the text between the braces, when `t[start .. start+len)` is a brace group: it opens with `{` at `start` and the brace
+that closes it (by counting) is its last byte -/
 def braceParam (t : Bytes) (start len : Nat) : Option Bytes :=
-  if len < 2 || start + len > t.length || t[start]? != some 123 || t[start + len - 1]? != some 125 then none
-  else some ((t.drop (start + 1)).take (len - 2))
+  match t.drop start with
+  | 123 :: rest => if 2 ≤ len ∧ closeIdx rest 1 0 = some (len - 2) then some (rest.take (len - 2)) else none
+  | _ => none
 
 def nameOf (content : Bytes) : Bytes :=
   let n := match content.idxOf? 58 with | some p => content.take p | none => content
@@ -72,7 +83,8 @@ def localFault : TErr → Bool
       | some c => consOf c == some n && n.any (invalidChars.contains ·)
       | none => false)
   | .touchingParameters t s l =>
-    s + l ≤ t.length && l ≥ 4 && t[s]? == some 123 && t[s + l - 1]? == some 125 && hasSub [125, 123] ((t.drop s).take l)
+    -- the range is two brace groups, the second starting where the first ends
+    (List.range (l + 1)).any (fun k => (braceParam t s k).isSome && (braceParam t (s + k) (l - k)).isSome)
   | .duplicateParameter t n f fl s sl =>
     f + fl ≤ s &&
       (match braceParam t f fl, braceParam t s sl with
